@@ -131,6 +131,21 @@ def stepSt (st : St) (ws : List String) : St × String :=
         match (runOp st.s 0 (.move c c)).bind (fun s1 => runOp s1 0 (.raw c none)) with
         | some s' => ({ st with s := s' }, showState s')
         | none => ({ st with bad := true }, "undisciplined")
+    | ["ctor_convmove", x, y] =>
+      -- `Ref<Base> x(std::move(y)); y = nullptr;` : copy- or move-conversion, both leave this state
+      match parseLoc st.s x, parseLoc st.s y with
+      | some cx, some cy =>
+        match (runOp st.s 0 (.ctorCopy cx cy)).bind (fun s1 => runOp s1 0 (.raw cy none)) with
+        | some s' => ({ st with s := s' }, showState s')
+        | none => ({ st with bad := true }, "undisciplined")
+      | _, _ => (st, "bad-op")
+    | ["convmove", x, y] =>
+      match parseLoc st.s x, parseLoc st.s y with
+      | some cx, some cy =>
+        match (runOp st.s 0 (.conv cx cy TMP)).bind (fun s1 => runOp s1 0 (.raw cy none)) with
+        | some s' => ({ st with s := s' }, showState s')
+        | none => ({ st with bad := true }, "undisciplined")
+      | _, _ => (st, "bad-op")
     | _ =>
     match parseOp st.s ws with
     | none => (st, "bad-op")
